@@ -21,6 +21,10 @@ func propC04(c *Ctx) {
 	defer func() {
 		rfr := c.Rule("full-read", "every direct Read on an io.Reader in the decoder uses the byte count returned (a reader may deliver the stream in pieces)", 1)
 		ruleFullRead(c, rfr)
+		rai := c.Rule("assert-inhabited", "every type assertion of the encoder to a concrete repository type targets a type of which values are placed into interfaces somewhere: an assertion to the encoder's own layout-twin of a uGO type can never succeed", 5)
+		ruleAssertInhabited(c, rai, func(pp string) bool { return pp == modPath+"/encoder" })
+		rgr := c.Rule("gob-register-cover", "every data object type the encoder has a codec for is registered with gob: such a value can be nested in an object that is written through gob", 8)
+		ruleGobRegisterCover(c, rgr)
 		rsl := c.Rule("syncmap-lock", "the encoder walks a SyncMap's map only while it holds the SyncMap's lock (a decoded Bytecode links the host's live module objects: re-encoding it runs beside the host's writers)", 1)
 		ruleSyncMapLock(c, rsl, func(pp string) bool { return pp == modPath+"/encoder" })
 		rsa := c.Rule("scalar-accept", "the integer scalar decoders reject, on the ground of the decoded value, only values outside the range of the Go type the encoder writes", 3)
